@@ -100,33 +100,56 @@ Proof.
   - rewrite (slice_sub b 4 12 10 (10 + 2) _ Hs) by lia. reflexivity.
 Qed.
 
-(* the pointer-rule checker of the specification (judge13's core) accepts the decoded message *)
-Definition ptr_ok (bm : bytes) (m : dmsg) : Prop :=
-  forall eq ea en er, Forall (fun a => a_nocomp a = false) (eq ++ ea ++ en ++ er) ->
-    length eq = length (m_qs m) -> length ea = length (m_an m) -> length en = length (m_ns m) ->
-    length er = length (m_ar m) ->
+(* the pointer-rule checker of the specification (judge13's core) accepts the decoded message, for
+   expected items whose "no compression at all" flag is that of the mode they were written in *)
+Definition qflag (e : aitem) (a : aq) : Prop := a_nocomp e = nocomp_of (aq_mode a).
+Definition rflag (e : aitem) (a : arr) : Prop := a_nocomp e = nocomp_of (ar_mode a).
+
+Definition ptr_ok (bm : bytes) (m : dmsg) (Aq : list aq) (Aa An Ar : list arr) : Prop :=
+  forall eq ea en er, Forall2 qflag eq Aq -> Forall2 rflag ea Aa -> Forall2 rflag en An -> Forall2 rflag er Ar ->
     exists st, (let* st := check_qs bm [] eq (m_qs m) in
                 let* st := check_rrs bm st ea (m_an m) in
                 let* st := check_rrs bm st en (m_ns m) in
                 check_rrs bm st er (m_ar m)) = Ok st.
 
-Lemma Forall2_wfL rs al : Forall2 rrd rs al -> Forall arr_wf al -> Forall rr_wfL rs.
+Lemma Forall2_wfL rs al : Forall2 rr_desc2 rs al -> Forall arr_wf al -> Forall rr_wfL rs.
 Proof.
-  induction 1; intros Hw; constructor; inversion Hw; subst; auto. eapply rr_wfL_of; eauto.
+  induction 1 as [|r a rs al [Hd _] _ IH]; intros Hw; constructor; inversion Hw; subst; auto.
+  eapply rr_wfL_of; eauto.
 Qed.
 
-Lemma ptr_chain bm (L : nat -> Prop) yq r1 r2 r3 rs m1 m2 len dq d1 d2 d3 :
+Lemma Forall2_rrd rs al : Forall2 rr_desc2 rs al -> Forall2 rrd rs al.
+Proof. induction 1 as [|r a rs al [Hd _] _ IH]; constructor; auto. Qed.
+
+Lemma Forall2_rplain es al rs : Forall2 rflag es al -> Forall2 rr_desc2 rs al ->
+  Forall2 (fun a r => a_nocomp a = true -> rr_plain r) es rs.
+Proof.
+  intros H. revert rs. induction H as [|e a es al He _ IH]; intros rs Hd; inversion Hd as [|r ? rs' ? [_ Hp] Hd']; subst;
+    constructor; auto.
+  intros Hn. apply Hp. unfold rflag in He. rewrite He in Hn. destruct (ar_mode a); simpl in Hn; congruence.
+Qed.
+
+Lemma Forall2_qplain es al qs : Forall2 qflag es al -> Forall2 q_desc qs al ->
+  Forall2 (fun a q => a_nocomp a = true -> nc_sh (lq_name q) = None) es qs.
+Proof.
+  intros H. revert qs. induction H as [|e a es al He _ IH]; intros qs Hd; inversion Hd as [|q ? qs' ? [_ Hp] Hd']; subst;
+    constructor; auto.
+  intros Hn. apply Hp. unfold qflag in He. rewrite He in Hn. destruct (aq_mode a); simpl in Hn; congruence.
+Qed.
+
+Lemma ptr_chain bm (L : nat -> Prop) yq r1 r2 r3 rs m1 m2 len dq d1 d2 d3 Aq Aa An Ar :
   qs_at bm L yq header_size rs -> rrs_at bm L r1 rs m1 -> rrs_at bm L r2 m1 m2 -> rrs_at bm L r3 m2 len ->
   len <= length bm ->
   (forall s, L s <-> In s (qs_starts yq ++ rrs_starts (r1 ++ r2 ++ r3))) ->
   Forall2 (fun q d => dq_pos d = nc_pos (lq_name q)) yq dq ->
   Forall2 rlink r1 d1 -> Forall2 rlink r2 d2 -> Forall2 rlink r3 d3 ->
   Forall (fun q => wf_name (nc_name (lq_name q))) yq -> Forall rr_wfL r1 -> Forall rr_wfL r2 -> Forall rr_wfL r3 ->
-  forall id f2 f3, ptr_ok bm (mkDM id f2 f3 dq d1 d2 d3).
+  Forall2 q_desc yq Aq -> Forall2 rr_desc2 r1 Aa -> Forall2 rr_desc2 r2 An -> Forall2 rr_desc2 r3 Ar ->
+  forall id f2 f3, ptr_ok bm (mkDM id f2 f3 dq d1 d2 d3) Aq Aa An Ar.
 Proof.
-  intros Hq H1 H2 H3 Hlen Ht Lq L1 L2 L3 Wq W1 W2 W3 id f2 f3 eq ea en er Hno Eq Ea En Er.
-  simpl in Eq, Ea, En, Er.
-  apply Forall_app in Hno as [Nq Hno]. apply Forall_app in Hno as [Na Hno]. apply Forall_app in Hno as [Nn Nr].
+  intros Hq H1 H2 H3 Hlen Ht Lq L1 L2 L3 Wq W1 W2 W3 Dq D1 D2 D3 id f2 f3 eq ea en er Fq Fa Fn Fr.
+  pose proof (Forall2_qplain _ _ _ Fq Dq) as Pq. pose proof (Forall2_rplain _ _ _ Fa D1) as P1.
+  pose proof (Forall2_rplain _ _ _ Fn D2) as P2. pose proof (Forall2_rplain _ _ _ Fr D3) as P3.
   pose proof (qs_le _ _ _ _ _ Hq). pose proof (rrs_le _ _ _ _ _ H1). pose proof (rrs_le _ _ _ _ _ H2).
   pose proof (rrs_le _ _ _ _ _ H3).
   cbn [m_qs m_an m_ns m_ar].
@@ -185,7 +208,9 @@ Theorem roundtrip buf limit w0 ops : writer_new buf limit = Ok w0 ->
         Forall2 (rr_rel xparts) (am_ar (areplay am0 ops (rr_outcomes rr)) ++ pseudo (d_w d)) (m_ar m) /\
         get16 (firstn len b) 0 = Some (m_id m) /\ nth_error (firstn len b) 2 = Some (m_flags2 m) /\
         nth_error (firstn len b) 3 = Some (m_flags3 m) /\ agree 4 (w_buf (d_w d)) b /\ 12 <= len /\
-        am_mode (areplay am0 ops (rr_outcomes rr)) = w_mode (d_w d) /\ ptr_ok (firstn len b) m
+        am_mode (areplay am0 ops (rr_outcomes rr)) = w_mode (d_w d) /\
+        ptr_ok (firstn len b) m (am_qs (areplay am0 ops (rr_outcomes rr))) (am_an (areplay am0 ops (rr_outcomes rr)))
+               (am_ns (areplay am0 ops (rr_outcomes rr))) (am_ar (areplay am0 ops (rr_outcomes rr)) ++ pseudo (d_w d))
     | None => True
     end.
 Proof.
@@ -225,8 +250,11 @@ Proof.
   destruct (nth_some bm 2 ltac:(lia)) as [f2 Gf2]. destruct (nth_some bm 3 ltac:(lia)) as [f3 Gf3].
   (* questions *)
   pose proof (Forall2_len _ _ _ Fq) as Lq.
+  assert (Fq' : Forall2 (fun q a => nc_name (lq_name q) = aq_name a /\ nc_cp (lq_name q) = aq_exact a /\
+                                    lq_ty q = aq_ty a /\ lq_cl q = aq_cl a) (y_qs yF) (am_qs A)).
+  { clear - Fq. induction Fq as [|q a qs al [Hd _] _ IH]; constructor; auto. }
   destruct (qs_decode bm header_size len (length b) LF Hcl' Hsd' (y_qs yF) (am_qs A) header_size
-              (w_rr_start (d_w d)) P1' Fq Wq ltac:(lia)) as [qds [Eq [Rq Lkq]]].
+              (w_rr_start (d_w d)) P1' Fq' Wq ltac:(lia)) as [qds [Eq [Rq Lkq]]].
   (* the three record sections *)
   apply Forall2_app_inv_r in Fr as [rs1 [rest1 [F1 [Fr Ey1]]]].
   apply Forall2_app_inv_r in Fr as [rs2 [rs3 [F2 [F3 Ey2]]]].
@@ -236,9 +264,9 @@ Proof.
   pose proof (rrs_le _ _ _ _ _ Q1). pose proof (rrs_le _ _ _ _ _ Q2). pose proof (rrs_le _ _ _ _ _ Q3).
   assert (Wps : Forall arr_wf (am_ar A ++ pseudo (d_w d))).
   { apply Forall_app. split; auto. apply pseudo_wf; auto. }
-  destruct (rrs_decode bm header_size len (length b) LF Hcl' Hsd' rs1 (am_an A) _ _ Q1 F1 Wa ltac:(lia)) as [d1 [E1 [R1 Lk1]]].
-  destruct (rrs_decode bm header_size len (length b) LF Hcl' Hsd' rs2 (am_ns A) _ _ Q2 F2 Wn ltac:(lia)) as [d2 [E2 [R2 Lk2]]].
-  destruct (rrs_decode bm header_size len (length b) LF Hcl' Hsd' rs3 _ _ _ Q3 F3 Wps ltac:(lia)) as [d3 [E3 [R3 Lk3]]].
+  destruct (rrs_decode bm header_size len (length b) LF Hcl' Hsd' rs1 (am_an A) _ _ Q1 (Forall2_rrd _ _ F1) Wa ltac:(lia)) as [d1 [E1 [R1 Lk1]]].
+  destruct (rrs_decode bm header_size len (length b) LF Hcl' Hsd' rs2 (am_ns A) _ _ Q2 (Forall2_rrd _ _ F2) Wn ltac:(lia)) as [d2 [E2 [R2 Lk2]]].
+  destruct (rrs_decode bm header_size len (length b) LF Hcl' Hsd' rs3 _ _ _ Q3 (Forall2_rrd _ _ F3) Wps ltac:(lia)) as [d3 [E3 [R3 Lk3]]].
   pose proof (Forall2_len _ _ _ F1) as L1. pose proof (Forall2_len _ _ _ F2) as L2.
   pose proof (Forall2_len _ _ _ F3) as L3. rewrite app_length in L3.
   pose proof (pseudo_length (d_w d)) as Lp.
@@ -246,7 +274,7 @@ Proof.
     [|cbn [m_qs m_an m_ns m_ar m_id m_flags2 m_flags3]; repeat split; auto; try lia].
   2:{ apply (ptr_chain bm LF (y_qs yF) rs1 rs2 rs3 (w_rr_start (d_w d)) m1 m2 len); auto; try lia.
       - intros s. rewrite P3, Ey1, Ey2. reflexivity.
-      - clear - Fq Wq. induction Fq as [|q a qs al [D1 _] _ IH]; constructor; inversion Wq; subst.
+      - clear - Fq Wq. induction Fq as [|q a qs al [[D1 _] _] _ IH]; constructor; inversion Wq; subst.
         + rewrite D1. apply H1.
         + apply IH; auto.
       - eapply Forall2_wfL; eauto.
@@ -263,7 +291,7 @@ Qed.
 
 (* ---------------------------------------------------------------- header, EDNS, TSIG *)
 
-Lemma pseudo_eq w H : HInv w H -> pseudo w = pseudo_of (exactf (w_mode w)) H.
+Lemma pseudo_eq w H : HInv w H -> pseudo w = pseudo_of (w_mode w) H.
 Proof.
   intros [_ _ _ _ _ He Ht]. unfold pseudo, pseudo_of. rewrite He. f_equal.
   - destruct (h_edns H) as [[u up]|]; reflexivity.
@@ -284,8 +312,12 @@ Theorem roundtrip_full buf limit w0 ops : writer_new buf limit = Ok w0 ->
         Forall2 (rr_rel xparts) (am_ns (areplay am0 ops (rr_outcomes rr))) (m_ns m) /\
         Forall2 (rr_rel xparts)
           (am_ar (areplay am0 ops (rr_outcomes rr)) ++
-           pseudo_of (exact_of (am_mode (areplay am0 ops (rr_outcomes rr)))) (hreplay ah0 ops (rr_outcomes rr)))
-          (m_ar m)
+           pseudo_of (am_mode (areplay am0 ops (rr_outcomes rr))) (hreplay ah0 ops (rr_outcomes rr)))
+          (m_ar m) /\
+        ptr_ok (firstn len b) m (am_qs (areplay am0 ops (rr_outcomes rr))) (am_an (areplay am0 ops (rr_outcomes rr)))
+          (am_ns (areplay am0 ops (rr_outcomes rr)))
+          (am_ar (areplay am0 ops (rr_outcomes rr)) ++
+           pseudo_of (am_mode (areplay am0 ops (rr_outcomes rr))) (hreplay ah0 ops (rr_outcomes rr)))
     | None => True
     end.
 Proof.
@@ -310,25 +342,31 @@ Proof.
     unfold hdr_rel. rewrite Hm_id, Hm2, Hm3. unfold dec2 in F2. unfold dec3 in F3.
     inversion F2. inversion F3. repeat split; auto.
   - split; auto. split; auto. split; auto.
-    rewrite Hmode, <- exactf_of. rewrite <- (pseudo_eq _ _ Hi). exact Rr.
+    rewrite Hmode. rewrite <- (pseudo_eq _ _ Hi). split; [exact Rr|exact Hptr].
 Qed.
 
 (* C13 through the specification's own checker: the decoded finished message passes the pointer rules
    (every pointer met leads strictly before its name to a label start collected from the names decoded
-   before it; no pointer in uncompressible RDATA names) *)
+   before it; no pointer in uncompressible RDATA names; no pointer at all in items written with
+   compression disabled) *)
 Theorem pointer_rules buf limit w0 ops : writer_new buf limit = Ok w0 ->
-  run_contract (mkD w0 []) g0 ops -> Forall op_wf ops -> Forall op_wf2 ops ->
+  run_contract (mkD w0 []) g0 ops -> Forall op_wf ops -> Forall op_wf2 ops -> Forall op_wf3 ops ->
   exists rr, run_writer buf limit ops = Ok rr /\
     match rr_final rr with
-    | Some (len, b) => exists m, decode_msg (firstn len b) = Some m /\ ptr_ok (firstn len b) m
+    | Some (len, b) =>
+      exists m, decode_msg (firstn len b) = Some m /\
+        ptr_ok (firstn len b) m (am_qs (areplay am0 ops (rr_outcomes rr))) (am_an (areplay am0 ops (rr_outcomes rr)))
+          (am_ns (areplay am0 ops (rr_outcomes rr)))
+          (am_ar (areplay am0 ops (rr_outcomes rr)) ++
+           pseudo_of (am_mode (areplay am0 ops (rr_outcomes rr))) (hreplay ah0 ops (rr_outcomes rr)))
     | None => True
     end.
 Proof.
-  intros H0 Hc Hw1 Hw2.
-  destruct (roundtrip buf limit w0 ops H0 Hc Hw1 Hw2) as [rr [E HR]].
+  intros H0 Hc Hw1 Hw2 Hw3.
+  destruct (roundtrip_full buf limit w0 ops H0 Hc Hw1 Hw2 Hw3) as [rr [E HR]].
   exists rr. split; auto.
   destruct (rr_final rr) as [[len b]|]; auto.
-  destruct HR as [d [m [Hrun [Ed [_ [_ [_ [_ [_ [_ [_ [_ [_ [_ Hptr]]]]]]]]]]]]]]. eauto.
+  destruct HR as [m [Ed [_ [_ [_ [_ [_ Hptr]]]]]]]. eauto.
 Qed.
 
 (* the getters, at any point of a contract-obeying run, return the values denoted by the operations *)
